@@ -553,7 +553,7 @@ class Gen:
                         dd = shlex.split(sj[3:].strip())
                         if dd[0] == 'endfn':
                             break
-                        if dd[0] in ('loop', 'at', 'start', 'sigattr', 'tail', 'closure', 'anf'):
+                        if dd[0] in ('loop', 'at', 'start', 'sigattr', 'tail', 'closure', 'anf', 'end'):
                             sections.append((dd[0], dd[1:], [], j + 1))
                         else:
                             raise GenError('%s:%d unexpected directive %s inside fn' % (tmpl_path, j + 1, dd[0]))
@@ -748,6 +748,9 @@ class Gen:
                 sigattrs = slines
             elif kind == 'start':
                 inserts.setdefault(1, []).extend(slines)
+            elif kind == 'end':
+                # just before the closing brace of the body (bodies that end with a statement)
+                inserts.setdefault(len(body_lines) - 1, []).extend(slines)
             elif kind == 'tail':
                 # before the single-line tail expression of the body
                 k = len(body_lines) - 2
